@@ -22,7 +22,7 @@ Definition outcome_np (o : outcome) : Prop :=
 
 Lemma resolve_steps_np steps : forall cur, np (resolve_steps cur steps).
 Proof.
-  induction steps as [|[a|] steps IH]; intros cur; cbn; [exact I| |apply IH].
+  induction steps as [|[a| |] steps IH]; intros cur; cbn; [exact I| |apply IH|apply IH].
   destruct (jn cur a); [apply IH|exact I].
 Qed.
 
